@@ -15,10 +15,7 @@ import (
 func TestMain(m *testing.M) { vlib.Main(m) }
 
 func universe() *vlib.Universe {
-	if os.Getenv("VERIF_C01_NONALPHA") == "1" {
-		return vlib.UniPlainNA
-	}
-	return vlib.UniPlain
+	return vlib.UniPlainNA
 }
 
 var prop = vlib.Prop[*vlib.HistCase]{
